@@ -197,3 +197,91 @@ func VerifC01_SiblingIndependence() {
 		vfReach("sibling-failed")
 	}
 }
+
+// hLister01 records, per delivery, which alerts were listed as firing.
+type hLister01 struct {
+	deliveries [][]string
+}
+
+func (n *hLister01) Notify(ctx context.Context, as ...*alert.Alert) (bool, error) {
+	var names []string
+	for _, a := range as {
+		if !a.Resolved() {
+			names = append(names, string(a.Labels["alertname"]))
+		}
+	}
+	n.deliveries = append(n.deliveries, names)
+	return false, nil
+}
+
+// VerifC01_ChangingGroup: the group's membership changes between flushes. Over 2
+// (quick) / 3 (thorough) flushes of one group through the receiver's real stage and the
+// real notification log, each of three alerts is absent, firing or resolved at every
+// flush, for both send_resolved settings and a repeat interval that never elapses.
+// After every flush, every alert that is firing in the flushed batch has been listed as
+// firing in the latest notification sent for the group: a newly firing alert is never
+// left out because the group "looks unchanged" (same size, send_resolved off, ...).
+//
+//vf:quick unwind=16 decisions=500 goroutines=6 preempt=0 paths=600000
+//vf:thorough unwind=16 decisions=800 goroutines=8 preempt=0 paths=6000000
+//vf:expect reach=new-alert-notified reach=unchanged-quiet
+func VerifC01_ChangingGroup() {
+	l, err := nflog.New(nflog.Options{Retention: 100 * time.Hour, Metrics: prometheus.NewRegistry()})
+	if err != nil {
+		panic(err)
+	}
+	n := &hLister01{}
+	m := NewMetrics(prometheus.NewRegistry(), featurecontrol.NoopFlags{})
+	stage := createReceiverStage("recv", []Integration{NewIntegration(n, hRS01(vfBool("sendResolved")), "webhook", 0, "recv")},
+		func() time.Duration { return 0 }, l, m, eventrecorder.Recorder{})
+	names := []string{"A", "B", "C"}
+	t0 := vfNow()
+	latest := map[string]bool{} // firing alerts listed by the latest notification
+	for f := 0; f < 2+vfTier(); f++ {
+		now := vfNow()
+		var batch []*alert.Alert
+		firing := map[string]bool{}
+		for _, name := range names {
+			st := vfChoice("state", 3)
+			if st == 0 {
+				continue
+			}
+			a := &alert.Alert{}
+			a.Labels = model.LabelSet{"alertname": model.LabelValue(name)}
+			a.StartsAt, a.UpdatedAt = t0.Add(-time.Hour), now
+			if st == 1 {
+				a.EndsAt = now.Add(100 * time.Hour)
+				firing[name] = true
+			} else {
+				a.EndsAt = now.Add(-time.Second)
+			}
+			batch = append(batch, a)
+		}
+		if len(batch) > 0 {
+			ctx, cancel := context.WithTimeout(context.Background(), time.Minute)
+			ctx = WithGroupKey(ctx, "gk")
+			ctx = WithReceiverName(ctx, "recv")
+			ctx = WithRepeatInterval(ctx, 1000*time.Hour)
+			ctx = WithNow(ctx, now)
+			before := len(n.deliveries)
+			_, _, ferr := stage.Exec(ctx, promslog.NewNopLogger(), batch...)
+			cancel()
+			vfAssert("flush-ok", ferr == nil)
+			if len(n.deliveries) > before {
+				latest = map[string]bool{}
+				for _, x := range n.deliveries[len(n.deliveries)-1] {
+					latest[x] = true
+				}
+			}
+			for name := range firing {
+				vfAssert("every-firing-alert-is-in-the-latest-notification", latest[name])
+			}
+			if len(n.deliveries) > before && f > 0 {
+				vfReach("new-alert-notified")
+			} else if f > 0 {
+				vfReach("unchanged-quiet")
+			}
+		}
+		vfAdvance(5 * time.Minute)
+	}
+}
